@@ -27,12 +27,26 @@ ADDENDA = {
            "user's (dt, M, r)).",
     "C13": " The assembly `Interface.baseStep` that all step-level equivalences are stated about IS what the regenerated "
            "BaseStepper.__init__ + step_fourier evaluate (Properties/C13_base.lean); both builders receive the derivative operator of the "
-           "user's (D, L, N).",
+           "user's (D, L, N). LINEAR CLASSES (Properties/C13_linear.lean, 17 theorems on the regenerated operators and wiring): Advection, "
+           "Diffusion, AdvectionDiffusion, Dispersion (default flag; both flags in 1-D), HyperDiffusion (default flag; both in 1-D) step exactly "
+           "like GeneralLinearStepper with [0,-v], [0,0,nu], [0,-v,nu], [0,0,0,xi], [0,0,0,0,-mu] (scalar or uniform-vector / scalar-matrix "
+           "coefficients), NavierStokesVorticity like GeneralVorticityConvectionStepper with [drag/D, 0, nu]; proved NON-equivalences: the mixing "
+           "flags in D=2, anisotropic advection has no generic equivalent, the naive zeroth coefficient [drag,0,nu] differs in D=2 (the generic "
+           "a0 enters as D*a0, as for Fisher-KPP).",
     "C16": " mean_metric (regenerated from metrics/_utils.py): the arithmetic mean over the batch of the per-member metric, the metric itself "
            "for one member or equal members (Properties/C16_mean.lean); probe on the implementation with six metrics and keyword arguments.",
     "C18": " build_ic_set (regenerated from _utils.py): a deterministic function of the key with num_samples members, member i = the generator "
            "at the second half of the split of the key carried after i samples, prefix-stable in num_samples (Properties/C18_icset.lean); "
            "bit-exact probe against the key-threading loop on the implementation.",
+    "C11": " NYQUIST-FREE STATES ON EVERY GRID (Properties/C11_nyquist_free.lean): for every symbol with Lambda(-k) = conj Lambda(k) and zero "
+           "real part (advection, dispersion, mixed dispersion instantiated), every real Nyquist-free state, every D >= 1, every N > 0 (even "
+           "grids included) and every real dt, one step and every rollout preserve the 2-norm exactly: at a self-conjugate stored mode either "
+           "all wavenumber components are negated (Hermitian pair) or a Nyquist component exists (coefficient zero).",
+    "C14": " NYQUIST-FREE CLAUSE (Properties/C14_nyquist_free.lean): invariant version of the repeated-stepper theorem (a Fourier step that maps "
+           "realisable spectra satisfying P to realisable spectra satisfying P gives repeated stepper = physical loop on states satisfying P); "
+           "instance: every diagonal step with g(-k) = conj g(k) — odd-order symbols included — on ANY grid, for every real Nyquist-free state and "
+           "every n; ETD-type steps whose nonlinear part is masked at the Nyquist modes; odd grids are the special case 'every state is "
+           "Nyquist-free'.",
     "C20": " BaseStepper.__call__ as a whole (regenerated: guard, then step): every shape but (C,)+(N,)*D is refused, the configured shape is "
            "stepped; unsupported orders are refused by the constructor (Properties/C20_base.lean).",
 }
